@@ -2,7 +2,7 @@
 C04 - a run always ends in a valid exit status and never leaks a handler failure.
 
 Cases: the full table (handler outcome x pre-handle listener behaviours x verbosity/ANSI x how the
-line resolves) run through the REAL ConsoleApplication.run with exception catching enabled; the
+line resolves x where the selected command sits in the command tree) run through the REAL ConsoleApplication.run with exception catching enabled; the
 Lean model gets the abstraction the code itself looks at (truthiness and int() of the result,
 exception kind).  Observables: status or escaped exception, was a report printed, handler calls.
 """
@@ -24,7 +24,9 @@ REQUIRED_THEOREMS = ["Clikit.Props.C04." + n for n in (
     "listeners_called_in_priority_order", "registration_order_irrelevant_across_priorities",
     "registration_swap_across_priorities", "other_events_irrelevant", "handled_does_not_stop",
     # how the handler is wired to the command (Model/Wiring.lean, tied by the `wiring` field of c04.run / c04.run_regs)
-    "wired_handler_runs", "wired_handler_once", "wired_unusable_contained")]
+    "wired_handler_runs", "wired_handler_once", "wired_unusable_contained",
+    # the selected command is any command of the tree (Model/CommandTree.lean, tied by the `sel` field of c04.run / c04.run_regs)
+    "sub_command_dispatcher", "sub_command_listeners", "sub_command_run", "command_without_application")]
 TECHNIQUE = ("Lean 4 theorems on a model of ConsoleApplication.run/Command.handle whose status normalisation is regenerated "
              "from Command.handle on every run + exhaustive outcome x listener x verbosity table against the real run()")
 LEVEL_TEXT = ("Proved in Lean for ALL handler results, exceptions and pre-handle listener lists: the status is 0 iff the value "
@@ -68,7 +70,17 @@ LEVEL_TEXT = ("Proved in Lean for ALL handler results, exceptions and pre-handle
               "(wired_unusable_contained). Tied to the real run by cases that wire the same handler behaviour as an instance, "
               "a lambda / function / bound-method / partial / callable-object factory, the handler CLASS itself as the "
               "factory, the library's CallbackHandler, a plain function reached through `__call__`, and under custom handler "
-              "method names (also next to a decoy `handle`).")
+              "method names (also next to a decoy `handle`). "
+              "WHERE THE SELECTED COMMAND SITS (Model/CommandTree.lean: Command.__init__ stores the application, takes the "
+              "application's dispatcher and builds every sub-command with the stored application, recursively): proved for ALL "
+              "command trees and ALL paths into them that the command reached holds the application's dispatcher "
+              "(sub_command_dispatcher), hence consults exactly the listeners registered on it (sub_command_listeners) and its "
+              "run IS the run of the run model with those listeners (sub_command_run) - every theorem above holds for a run "
+              "that selects a named, default or anonymous sub-command at any depth; a tree built without an application "
+              "consults no listener (command_without_application). Tied to the real run by the listener x outcome table on "
+              "command trees: named / default / anonymous sub-commands one and two levels down, their parents and siblings, "
+              "default and anonymous top-level commands; every command of the tree has a recording handler, the listeners "
+              "record which command their event is about.")
 LEVEL_NOTE = ("Trusted: Lean kernel + standard axioms; the hand-written run model; tools/genparts/c04.py; harness (abstraction "
               "of Python values to truthiness/int()). Not modelled: BaseExceptions other than KeyboardInterrupt (SystemExit "
               "raised by a handler propagates by design), OS signal delivery, the trace renderer itself (C20).")
@@ -84,8 +96,12 @@ RULE = ("product of 25 handler outcomes (return values None/False/0/-3/300/True/
         "callable object, bound method, CallbackHandler direct and lazy, plain function behind `__call__`; default / "
         "explicitly set / custom handler method names, with a decoy `handle`; 5 unusable ones: nothing set, no such method, "
         "factory raises, factory builds None) x 8 outcomes (quick; all 40 x 2 verbosities thorough) + random wiring x outcome "
-        "x listeners x line; non-trivial = the outcome is not 'return None' or the case has a registration history or a "
-        "wiring; distinct = the case")
+        "x listeners x line; plus COMMAND TREES: the 9 listener configurations x outcomes (quick: 1-2 of 4; thorough: all 40) "
+        "x every line of 8 shapes - `cmd` with sub-commands `add`/`other` directly or below a sub-command `repo`, `add` "
+        "named / default / anonymous, lines selecting `add` with and without its name, the parent, the sibling, and lines that "
+        "do not resolve; `cmd` as the application's default / anonymous command and an empty line - on the bare and the "
+        "default configuration, + random shape x line x registration history / wiring; non-trivial = the outcome is not 'return None' or the case has a registration history or a "
+        "wiring or a command tree; distinct = the case")
 TRUSTED_BASE = [
     "Lean 4.33 kernel; axioms within propext, Classical.choice, Quot.sound (audited per theorem on every run)",
     "tools/genparts/c04.py: translation of the last statement of Command.handle (the clamp) and check of the guard before it",
@@ -99,6 +115,10 @@ TRUSTED_BASE = [
     "callable = position in the history; the walk ends at a listener that stops propagation or raises) and the reading back of "
     "the dispatcher's order (modelled, not verified; tied by c04.run_regs on every case: status, handler calls, listener call "
     "log); lean/Clikit/Model/Dispatcher.lean is the model of C12 (tied by harness/props/c12.py)",
+    "lean/Clikit/Model/CommandTree.lean: hand-written model of what Command.__init__ / add_sub_command do with the application "
+    "and its dispatcher, and of the guard of _do_handle (modelled, not verified; tied by the command-tree cases: status, "
+    "report, handler calls, listener call log; the harness says which command of the tree a line selects - a hand-written "
+    "table per shape, resolution itself is C03's subject)",
     "lean/Clikit/Model/App.lean: hand-written composition of the switches, resolver, parser, help-target and run models in the "
     "order of ConsoleApplication.run / DefaultApplicationConfig (modelled, not verified; tied by the differential runs of "
     "harness/props/c09.py through c09.app_run: status, selected command and args, handler invocations, help/version kind and "
@@ -113,6 +133,9 @@ ASSUMPTIONS = [
     "wiring: a callable given to set_handler is a factory (the library's rule), so a handler that is reached by CALLING it is "
     "given as `lambda: fn` with the method name `__call__`; factories take no arguments and build a fresh handler per run; "
     "'the handler is invoked' means the configured handler method of the object the wiring reaches",
+    "command trees: 'the selected command' of a line is given by the harness's table (which sub-command a line names, the "
+    "default / anonymous sub-command when it names none); 'no other handler runs' is judged on the recording handlers "
+    "of ALL commands of the tree; the listeners must be consulted with an event about the selected command",
     "the app_* theorems take case conditions on their own inputs only (no help switch, `resolve` selects (path, args), the "
     "version option is not set, the path is not [help]); in the composed model rendering a help page or the version line "
     "succeeds (C13 help_total) and create_io does not raise",
@@ -161,6 +184,114 @@ WIRING_OUTCOMES = [{"ret": {"kind": "none"}}, {"ret": {"kind": "int", "v": 0}}, 
                    {"ret": {"kind": "str", "v": "12"}}, {"ret": {"kind": "int", "v": 7}},
                    {"raise": {"type": "RuntimeError"}}, {"raise": {"type": "KeyboardInterrupt"}},
                    {"raise": {"type": "CannotParse"}}]
+
+
+# ---- WHERE the selected command sits in the command tree.  A case without "shape" has the single top-level command
+# `cmd`.  With a shape, `cmd` has sub-commands (`add` - the one the good lines select - and `other`), directly ("sub") or
+# below a sub-command `repo` ("nested"); `add` is a named, a default or an anonymous sub-command.  EVERY command of the tree
+# has a handler of its own (all wired the same way, all with the case's outcome; an invocation records the command's name).
+SHAPES = ["sub:named", "sub:default", "sub:anon", "nested:named", "nested:default", "nested:anon"]
+# ... and the top-level command `cmd` itself as the application's default / anonymous command (bare configuration only:
+# the default configuration has a default command of its own, `help`)
+TOP_SHAPES = ["top:default", "top:anon"]
+
+
+def _shape_lines(shape):
+    """the lines of a shape: tokens -> (names from `cmd` down to the command the line selects, the arguments parsed for it),
+    or None for a line that does not resolve (C03 is the property about resolution; this table is written by hand)"""
+    kind, mode = shape.split(":")
+    if kind == "top":
+        t = [([], (["cmd"], {})), (["x"], None)]          # no command name on the line: the default command runs
+        if mode == "default":
+            t.insert(0, (["cmd", "x"], (["cmd"], {"a": "x"})))
+        return t
+    P = ["cmd"] if kind == "sub" else ["cmd", "repo"]
+    add = P + ["add"]
+    t = []
+    if mode == "anon":
+        t.append((P + ["x"], (add, {"a": "x"})))          # an anonymous command has no name on the line
+        t.append((P, (add, {})))
+        t.append((P + ["x", "y"], None))
+    else:
+        t.append((P + ["add", "x"], (add, {"a": "x"})))
+        t.append((P + ["add"], (add, {})))
+        t.append((P + ["add", "--unknown"], None))
+        if mode == "default":
+            t.append((P + ["x"], (add, {"a": "x"})))      # the default sub-command needs no name
+            t.append((P, (add, {})))
+        else:
+            t.append((P, (P, {})))                        # the parent command itself
+            t.append((P + ["x"], None))
+    t.append((P + ["other", "x"], (P + ["other"], {"a": "x"})))
+    if kind == "nested":
+        t.append((["cmd"], (["cmd"], {})))                # `repo` is a named sub-command: `cmd` alone is `cmd`
+    return t
+
+
+def _selection(case):
+    """(names of the selected command from the top-level command down, the arguments the line gives it) - None when the
+    line does not resolve"""
+    if "shape" not in case:
+        return (["cmd"], {"a": "x"}) if case["tokens"] == ["cmd", "x"] else None
+    for toks, sel in _shape_lines(case["shape"]):
+        if toks == case["tokens"]:
+            return sel
+    raise AssertionError("line %r is not in the table of shape %r" % (case["tokens"], case["shape"]))
+
+
+def _sel_request(case):
+    """the field `sel` of a model request: the sub-command configs below `cmd` as nested arrays and the positions leading
+    to the selected command (Model/CommandTree.lean)"""
+    if case["shape"].startswith("top"):
+        return {"tree": [], "path": []}
+    nested = case["shape"].startswith("nested")
+    tree = [[[], []]] if nested else [[], []]            # cmd -> [repo -> [add, other]]  /  cmd -> [add, other]
+    sel = _selection(case)
+    pos = {"repo": 0, "add": 0, "other": 1}
+    path = [pos[n] for n in sel[0][1:]] if sel else []
+    return {"tree": tree, "path": path}
+
+
+def _shape_cases(tier, rng):
+    k = 0
+    for shape in SHAPES + TOP_SHAPES:
+        for toks, sel in _shape_lines(shape):
+            for l, ls in enumerate(LISTENERS):
+                if tier == "quick":
+                    if sel is None and l % 3:
+                        continue
+                    outs = [REG_OUTCOMES[k % 4]] if (sel is None or sel[0][-1] != "add") else \
+                        [REG_OUTCOMES[k % 4], REG_OUTCOMES[(k + 1) % 4]]
+                else:
+                    outs = OUTCOMES if sel is not None else REG_OUTCOMES
+                for out in outs:
+                    k += 1
+                    c = {"outcome": out, "listeners": ls, "verbosity": 4 if k % 5 == 0 else 0, "ansi": False,
+                         "tokens": toks, "shape": shape}
+                    if k % 2 == 0 and shape in SHAPES:
+                        c["default_cfg"] = True
+                    yield c
+    # registration histories and wirings on sub-commands
+    for _ in range(150 if tier == "quick" else 2500):
+        shape = rng.choice(SHAPES)
+        lines = _shape_lines(shape)
+        toks = (lines[0] if rng.random() < 0.6 else rng.choice(lines))[0]
+        ls = rng.choice([l for l in LISTENERS if l] + REG_LISTS)
+        c = {"outcome": rng.choice(OUTCOMES), "listeners": ls, "verbosity": rng.choice(VERBOSITIES),
+             "ansi": rng.random() < 0.2, "tokens": toks, "shape": shape}
+        r = rng.random()
+        if r < 0.6:
+            order = list(range(len(ls)))
+            rng.shuffle(order)
+            regs = [{"l": i, "prio": rng.choice(PRIO_POOL)} for i in order]
+            if rng.random() < 0.3:
+                regs, c["listeners"] = _with_others(regs, ls, rng)
+            c["regs"] = regs
+        elif r < 0.8:
+            c["wiring"] = rng.choice(WIRINGS)
+        if rng.random() < 0.4:
+            c["default_cfg"] = True
+        yield c
 
 
 # ---- registration histories (bridge to the dispatcher, C12): listener lists whose ORDER is observable
@@ -308,6 +439,10 @@ def generate(tier, rng):
     # handler method names - every one of them must end in ONE invocation of the configured method with the parsed args
     for c in _wiring_cases(tier, rng):
         yield c
+    # ---- the command the line selects sits anywhere in the command tree: a named / default / anonymous sub-command, one
+    # or two levels down, the parent of sub-commands, a sibling - the whole listener x outcome table again on each
+    for c in _shape_cases(tier, rng):
+        yield c
 
 
 def exhaustive(tier):
@@ -332,8 +467,34 @@ def _app(case, io):
     cfg.set_terminate_after_run(False)
     cfg.set_io_factory(lambda app, args, i, o, e: io)
     c = cfg.create_command("cmd")
-    c.add_argument("a", Argument.OPTIONAL)
-    _wire(c, case)
+    if case.get("shape", "").startswith("top"):
+        if case.get("default_cfg"):
+            raise AssertionError("the top-level shapes are for the bare configuration")
+        c.add_argument("a", Argument.OPTIONAL)
+        _wire(c, case)
+        if case["shape"] == "top:default":
+            c.default()
+        else:
+            c.anonymous()
+    elif "shape" in case:
+        kind, mode = case["shape"].split(":")
+        _wire(c, case, "cmd")
+        parent = c
+        if kind == "nested":
+            parent = c.create_sub_command("repo")
+            _wire(parent, case, "repo")
+        add = parent.create_sub_command("add")
+        other = parent.create_sub_command("other")
+        for leaf, name in ((add, "add"), (other, "other")):
+            leaf.add_argument("a", Argument.OPTIONAL)
+            _wire(leaf, case, name)
+        if mode == "default":
+            add.default()
+        elif mode == "anon":
+            add.anonymous()
+    else:
+        c.add_argument("a", Argument.OPTIONAL)
+        _wire(c, case)
     if "regs" in case:
         for r in case["regs"]:                                                 # explicit history: any order, any event
             cfg.add_event_listener(r.get("event", PRE_HANDLE), _listener(case["listeners"][r["l"]], r["l"]), r["prio"])
@@ -349,9 +510,10 @@ class _CmdName(object):
     name = "cmd"
 
 
-def _wire(c, case):
+def _wire(c, case, name="cmd"):
     """configure the handler of the command as the case's wiring says (public setters of the command config only)"""
     import functools
+    cmd_name = type("_CmdName", (object,), {"name": name})
     w = case.get("wiring")
     out = case["outcome"]
     if w is None:
@@ -379,7 +541,7 @@ def _wire(c, case):
         from clikit.handler.callback_handler import CallbackHandler
 
         def callback(args, io):
-            return H._act(out, args, io, _CmdName)
+            return H._act(out, args, io, cmd_name)
         c.set_handler(CallbackHandler(callback) if how == "callback" else (lambda: CallbackHandler(callback)))
     elif how == "function_handler":
         fn = H.function_handler(out)
@@ -400,6 +562,7 @@ def _wire(c, case):
 
 
 LISTENER_CALLS = []
+LISTENER_CMDS = []      # per PRE_HANDLE listener call: the full name of the command the event is about
 OTHER_CALLS = []        # calls made while dispatching another event than PRE_HANDLE: [event name, index]
 
 
@@ -411,6 +574,7 @@ def _listener(l, index=None):
                 event.stop_propagation()
             return
         LISTENER_CALLS.append(index)
+        LISTENER_CMDS.append(getattr(getattr(event, "command", None), "full_name", None))
         if l["kind"] == "handled":
             event.handled(True)
             event.set_status_code(H.value_of(l["code"]))
@@ -445,6 +609,7 @@ def run_impl(case):
     del H.WRONG_CALLS[:]
     del H.BUILT[:]
     del LISTENER_CALLS[:]
+    del LISTENER_CMDS[:]
     del OTHER_CALLS[:]
     app = _app(case, io)
     try:
@@ -458,6 +623,7 @@ def run_impl(case):
         out = io.fetch_output() + io.fetch_error()
     return {"status": status if (status is None or isinstance(status, int)) else repr(status), "escaped": escaped,
             "reported": bool(out.strip()), "calls": len(H.CALLS), "call_args": [c["arguments"] for c in H.CALLS],
+            "call_names": [c["command"] for c in H.CALLS], "listener_cmds": list(LISTENER_CMDS),
             "status_type": type(status).__name__, "listener_calls": list(LISTENER_CALLS),
             "shows_message": _shows_message(case, out),
             **({"wrong_calls": len(H.WRONG_CALLS)} if "wiring" in case else {}),
@@ -490,8 +656,8 @@ def _ret_abs(spec):
     return {"falsy": not v, "toint": ti}
 
 
-def _resolution(tokens):
-    if tokens == ["cmd", "x"]:
+def _resolution(case):
+    if _selection(case) is not None:
         return None
     return {"ki": False, "clikit": True, "tag": 50}
 
@@ -531,10 +697,13 @@ def model_requests(case):
           "regs": [{"event": EVENT_NO[ev], "prio": p, "listener": ls[i]} for (i, p, ev) in _regs_of(case)]}
     if "wiring" in rq:
         rr["wiring"] = rq["wiring"]
-    r = _resolution(case["tokens"])
+    r = _resolution(case)
     if r is not None:
         rq["resolve_error"] = r
         rr["resolve_error"] = r
+    if "shape" in case:
+        # the selected command is a command of the tree built for `cmd`: the model derives the listeners IT consults
+        rq["sel"] = rr["sel"] = _sel_request(case)
     # a case with an explicit history has no calling-order list of its own: only the history is sent
     return [rr] if "regs" in case else [rq, rr]
 
@@ -568,7 +737,8 @@ def oracle(case, obs):
     st = obs["status"]
     if not isinstance(st, int) or isinstance(st, bool) or not (0 <= st <= 255):
         return "run() returned %r (%s), not an integer status in 0..255" % (st, obs["status_type"])
-    resolved = case["tokens"] == ["cmd", "x"]
+    selection = _selection(case)
+    resolved = selection is not None
     # which value / exception reaches the end of the run, by the statement
     handled = None
     failed = None
@@ -594,7 +764,13 @@ def oracle(case, obs):
                 break
         got_l = [i for i in obs["listener_calls"] if i is not None]
         if got_l != want_l:
-            return "pre-handle listeners called: %s, priority order up to the first stop: %s" % (got_l, want_l)
+            return "pre-handle listeners called for the selected command %r: %s, priority order up to the first stop: %s" % (
+                " ".join(selection[0]), got_l, want_l)
+        # ... and they are consulted about the command that was selected
+        wrong = [n for n in obs.get("listener_cmds", []) if n != " ".join(selection[0])]
+        if wrong:
+            return "the pre-handle event given to the listeners is about command %r, selected was %r" % (
+                wrong[0], " ".join(selection[0]))
     # a listener registered for another event is called for that event only (and never for an event nobody dispatches)
     for name, i in obs.get("other_calls", []):
         if i is not None and (i, name) not in [(j, ev) for (j, p, ev) in _regs_of(case)]:
@@ -609,8 +785,10 @@ def oracle(case, obs):
     expect_calls = 1 if (resolved and handled is None and failed is None and not broken) else 0
     if obs["calls"] != expect_calls:
         return "the handler was invoked %d time(s), the statement requires %d" % (obs["calls"], expect_calls)
-    if obs["calls"] == 1 and obs["call_args"] != [{"a": "x"}]:
-        return "the handler got arguments %r, parsed for the command: {'a': 'x'}" % (obs["call_args"],)
+    if obs["calls"] == 1 and obs.get("call_names", [selection[0][-1]]) != [selection[0][-1]]:
+        return "the handler of command %r ran, the line selects %r" % (obs["call_names"][0], " ".join(selection[0]))
+    if obs["calls"] == 1 and obs["call_args"] != [selection[1]]:
+        return "the handler got arguments %r, parsed for the command: %r" % (obs["call_args"], selection[1])
     if not resolved:
         exc, value = {"type": "CannotParse"}, None
     elif failed is not None:
@@ -648,7 +826,7 @@ def oracle(case, obs):
 
 def nontrivial_key(case, obs):
     import json
-    if case["outcome"] != {"ret": {"kind": "none"}} or "regs" in case or "wiring" in case:
+    if case["outcome"] != {"ret": {"kind": "none"}} or "regs" in case or "wiring" in case or "shape" in case:
         return json.dumps(case, sort_keys=True)
     return None
 
@@ -660,6 +838,9 @@ def bucket(case, obs):
     if "wiring" in case:
         w = case["wiring"]
         b += "|wired:%s%s" % (w["how"], ("." + w["method"]) if w.get("method") else "")
+    if "shape" in case:
+        sel = _selection(case)
+        b += "|%s->%s" % (case["shape"], "/".join(sel[0]) if sel else "unresolved")
     if "regs" in case:
         pr = [p for (i, p, ev) in _regs_of(case) if ev == "pre-handle"]
         b += "|history:%s%s" % ("ties" if len(set(pr)) < len(pr) else "distinct",
@@ -668,6 +849,14 @@ def bucket(case, obs):
 
 
 def neighbours(case):
+    for shape in SHAPES + ([] if case.get("default_cfg") else TOP_SHAPES):   # the same run selecting a command elsewhere in a tree
+        for toks, sel in _shape_lines(shape):
+            if (shape, toks) != (case.get("shape"), case["tokens"]) and (sel is not None) == (_selection(case) is not None):
+                yield dict(case, shape=shape, tokens=toks)
+    if "shape" in case:                                         # ... and the single top-level command
+        c = dict(case, tokens=LINES[0] if _selection(case) is not None else LINES[1])
+        del c["shape"]
+        yield c
     for w in WIRINGS:                                           # the same run with the handler wired another way
         if w != case.get("wiring"):
             yield dict(case, wiring=w)
